@@ -521,6 +521,64 @@ fn report(case: &str, prop: &str, fails: Vec<(String, String)>, only: &str) {
     }
 }
 
+/// a module in which every function, type, global, table and memory is reachable and only passive
+/// segments are dead (a pass that has "nothing to sweep" in the large index spaces still has to
+/// sweep the segments)
+fn tight_module(rng: &mut Rng) -> Vec<u8> {
+    use wasm_encoder::*;
+    let mut m = wasm_encoder::Module::new();
+    let mut t = TypeSection::new();
+    t.function([], []);
+    m.section(&t);
+    let mut f = FunctionSection::new();
+    let nf = rng.range(1, 3) as u32;
+    for _ in 0..nf {
+        f.function(0);
+    }
+    m.section(&f);
+    let mut tb = TableSection::new();
+    tb.table(TableType { element_type: RefType::FUNCREF, table64: false, minimum: 4, maximum: None, shared: false });
+    m.section(&tb);
+    let mut me = MemorySection::new();
+    me.memory(MemoryType { minimum: 1, maximum: None, memory64: false, shared: false, page_size_log2: None });
+    m.section(&me);
+    let mut g = GlobalSection::new();
+    g.global(GlobalType { val_type: ValType::I32, mutable: true, shared: false }, &ConstExpr::i32_const(1));
+    m.section(&g);
+    let mut ex = ExportSection::new();
+    for i in 0..nf {
+        ex.export(&format!("f{}", i), ExportKind::Func, i);
+    }
+    ex.export("t", ExportKind::Table, 0);
+    ex.export("m", ExportKind::Memory, 0);
+    ex.export("g", ExportKind::Global, 0);
+    m.section(&ex);
+    let mut el = ElementSection::new();
+    el.active(None, &ConstExpr::i32_const(0), Elements::Functions(&[0]));
+    let dead_elems = rng.below(3);
+    for _ in 0..dead_elems {
+        el.passive(Elements::Functions(&[nf - 1]));
+    }
+    m.section(&el);
+    let mut code = CodeSection::new();
+    for _ in 0..nf {
+        let mut func = Function::new([]);
+        func.instruction(&Instruction::GlobalGet(0));
+        func.instruction(&Instruction::Drop);
+        func.instruction(&Instruction::End);
+        code.function(&func);
+    }
+    m.section(&code);
+    let mut d = DataSection::new();
+    d.active(0, &ConstExpr::i32_const(8), [1u8, 2, 3]);
+    let dead_datas = if dead_elems == 0 { rng.range(1, 2) } else { rng.below(3) };
+    for _ in 0..dead_datas {
+        d.passive([0xdeu8, 0xad]);
+    }
+    m.section(&d);
+    m.finish()
+}
+
 pub fn main(seed: u64, tier: &str, only: Option<&str>) {
     let mut stats = Stats::default();
     if let Some(o) = only {
@@ -567,6 +625,11 @@ pub fn main(seed: u64, tier: &str, only: Option<&str>) {
             }
         }
         run_wasm(&format!("g{}", case), &wasm, edit, case % 3 != 0, &roots, &mut stats, &mut rng);
+    }
+    for case in 0..(if tier == "thorough" { 60 } else { 12 }) {
+        let mut rng = Rng::new(seed ^ 0x71, case as u64);
+        let wasm = tight_module(&mut rng);
+        run_wasm(&format!("tight{}", case), &wasm, Edit::None, case % 2 == 0, &[], &mut stats, &mut rng);
     }
     out::stat("gc.cases_with_custom_section_roots", stats.with_custom_roots);
     out::stat("gc.cases", stats.cases);
